@@ -96,7 +96,7 @@ func (c *ResourceOwnerPasswordCredentialsGrantHandler) PopulateTokenEndpointResp
 	atLifespan := fosite.GetEffectiveLifespan(requester.GetClient(), fosite.GrantTypePassword, fosite.AccessToken, c.Config.GetAccessTokenLifespan(ctx))
 	accessTokenSignature, err := c.IssueAccessToken(ctx, atLifespan, requester, responder)
 	if err != nil {
-		return err
+		return toServerError(err)
 	}
 
 	var refresh, refreshSignature string
